@@ -7,6 +7,8 @@ each schedule drives its own simulation and is compared with a twin that only ev
 """
 from __future__ import annotations
 
+import copy
+
 from hypothesis import strategies as st
 
 from vf import core, toydrive
@@ -78,8 +80,19 @@ def check(case, stats):
         for ci, call in enumerate(sched):
             done = bool(twin.is_done())
             before = toydrive.snapshot(drv)
-            fn = {"step": drv.step, "first": drv.first_cycle_step, "second": drv.second_cycle_step, "single": drv.single_step}[call]
-            legal = done or (phase == 1 and call in ("step", "first", "single")) or (phase == 2 and call in ("second", "single"))
+            if call == "run":
+                # run() = whole steps until done: legal at an instruction boundary (only tried when the reference machine
+                # stops within a bound - a non-terminating program would never return), a sequencing error in mid-instruction
+                if phase == 1 and not done:
+                    probe = copy.deepcopy(ref)
+                    k = 0
+                    while not probe.done() and k < 400:
+                        probe.step()
+                        k += 1
+                    if not probe.done():
+                        continue
+            fn = {"step": drv.step, "first": drv.first_cycle_step, "second": drv.second_cycle_step, "single": drv.single_step, "run": drv.run}[call]
+            legal = done or (phase == 1 and call in ("step", "first", "single", "run")) or (phase == 2 and call in ("second", "single"))
             where = f"schedule {si} call #{ci} {call} (phase {phase}, {completed} instructions completed, done={done})"
             try:
                 fn()
@@ -104,6 +117,15 @@ def check(case, stats):
                     raise Violation("call-after-done-changed-state", case, f"{where}: changed {_diff(before, after)}")
                 continue
             # legal call while running: advance the phase model
+            if call == "run":
+                while not ref.done():
+                    completed += 1
+                    twin.step()
+                    ref.step()
+                a, b = _observe(drv), _observe(twin)
+                if a != b:
+                    raise Violation("boundary-state-differs", case, f"{where}: run() differs from the step()-only twin in {_diff(a, b)}")
+                continue
             if call == "step":
                 boundary = True
             elif phase == 1:
@@ -150,6 +172,9 @@ def case_strategy(draw):
             seq += draw(st.sampled_from([["step"], ["first", "second"], ["single", "single"], ["first", "single"], ["single", "second"],
                                          ["first", "first", "second"], ["first", "step", "second"], ["second"], ["single"],
                                          ["first", "second", "second"], ["single", "step", "single"]]))
+        if draw(st.integers(0, 2)) == 0:
+            # ... ending in run(), at an instruction boundary or in mid-instruction
+            seq += draw(st.sampled_from([["run"], ["first", "run"], ["single", "run", "second"], ["run", "step", "run"]]))
         sched.append(seq)
     prog["sched"] = sched
     return prog
